@@ -56,7 +56,9 @@ def rowsOf (n : Nat) (d : List Nat) : Nat → List (List Nat)
 def impJson (i : Imp) : Json :=
   match i.kind with
   | .indexed => Json.mkObj [("idx", Driver.nats i.idx), ("vals", Driver.nats i.vals)]
-  | .fixed n => Json.mkObj [("rows", Json.arr ((rowsOf n i.data i.data.length).map Driver.nats).toArray)]
+  -- (the harness reads an `S<n>` element back as `bytes`: numpy drops the trailing NULs)
+  | .fixed n => Json.mkObj [("rows", Json.arr ((rowsOf n i.data i.data.length).map
+      (fun r => Driver.nats (Exetera.Transforms.rstripNul r))).toArray)]
   | .numeric _ _ _ _ => Json.mkObj [("nums", Json.arr (i.nums.map numJson).toArray), ("valids", toJson i.valids)]
   | _ => Json.null
 
